@@ -9,10 +9,10 @@ def repo_commits():
 
 A_NOTE = ("Also checked end to end (world E, except C06/C09): the same oracle on the outputs the real loop wrote per delivered key event when evdev bytes -> real reader -> RealDriver -> real loop -> real writer -> uinput bytes runs on pipes. Trusted: the fold definitions of 'held on the physical/virtual keyboard', the harness PRNG/scheduler, and - where the oracle uses the words "
           "'fires'/'in effect' - the ~60-line reference control model R (sim/src/refmodel.rs). Real code: Mapper::for_layout/step/release_all, "
-          "the JSON parser and the converter (every layout is loaded through them). Sampled, not enumerated. One generated layout in four is handed over as a text with repeat-only entries, one random-layout case in ten as a text in the alias shorthand; the oracles judge against the plain list of mappings the text means.")
+          "the JSON parser and the converter (every layout is loaded through them). Sampled, not enumerated. One generated layout in four is handed over as a text with repeat-only entries, one random-layout case in ten as a text in the alias shorthand; the oracles judge against the plain list of mappings the text means. One random-layout case in 48 has a wide shape (9-40 mappings on one final key, triggers of 5-10 keys, outputs of 5-14 keys, long Special and absorbing lists, 20-60 mappings) with up to 12 keys held; half of the marathon histories with reset blocks have them after round numbers of delivered events (127, 128, 255, 256, 257, 512, 1024, ...) only.")
 B_NOTE = ("Trusted: the simulated driver (edge-triggered readiness, discrete-event clock) and RefLoop (sim/src/loopsim.rs), which replays the recorded "
           "trace against its own real Mapper. Real code: do_remapping_loop_one_device and the mapper inside it, reached through hook H1. "
-          "In hybrid campaigns also the shipped RealDriver (hook H3) with the real readers/writer on pipes. In syspoll runs RealDriver::poll itself runs with the loop's own time-out (hook H5) on top of a simulated wait system call; unplug is ENODEV at the read(2) seam. Not covered: uinput ioctls (DevInputWriter::open), the multi-device thread spawners, a driver that reads the clock itself.")
+          "In hybrid campaigns also the shipped RealDriver (hook H3) with the real readers/writer on pipes. In syspoll runs RealDriver::poll itself runs with the loop's own time-out (hook H5) on top of a simulated wait system call; unplug is ENODEV at the read(2) seam. One run in six has long pauses (3 s to a day) between key events with whatever is held staying held; half of the marathons with a tablet switch have its changes after round numbers of key events only; one random layout in 48 has a wide shape. Not covered: uinput ioctls (DevInputWriter::open), the multi-device thread spawners, a driver that reads the clock itself.")
 
 CHECKS = {
  "C01": ("exploration", "seeded simulation of key actors + faulty delivery channel against the real mapper; invariant after every event", "3.A, 4 C01",
@@ -48,7 +48,7 @@ CHECKS = {
          "The simulator plays the uinput consumer and the evdev node on pipes: bytes of every batch are compared record by record with libc::input_event; the tool's reader must decode them back; on streams interleaving foreign records it must return exactly the press/release records with known codes. The sweep over all known key codes x {press, release} is exhaustive; batches/interleavings are sampled; hybrid world-B runs put the byte layer under whole loop histories. Backlogs of 30-700 skippable records before a key record; unknown codes up to 0xffff; one case in 100 on a newly started thread (cold per-thread state); hybrid runs with write(2) failures at numbered system calls, where what arrived on the device is decoded whatever the writer reports.",
          "Trusted: libc::input_event for this target; KeyCode discriminants = kernel key numbers. Real code: DevInputWriter::send, StructSerializer, DevInputReader::next, TabletModeSwitchReader::next. Host ABI only."),
  "C20": ("fault_enumeration", "per-call I/O fault sweep: every driver call of every sampled schedule fails in turn", "3.B, 4 C20",
-         "For each sampled (layout, schedule, tape) the fault-free run is executed once to learn its n driver calls, then re-executed n times with exactly the k-th call (register, poll, read or send) returning an error, for every k. The loop must return that error and write nothing afterwards. Two further sweeps go below the driver seam in hybrid runs: every send with the OS-level write under the shipped RealDriver/DevInputWriter failing (EAGAIN, EPIPE, EBADF) and every keyboard/tablet read failing (EBADF). Enumeration over fault positions is complete per schedule; schedules are sampled. In the runs whose poll goes through the shipped RealDriver::poll every wait system call fails in turn as well (EBADF, EINVAL, EFAULT).", B_NOTE),
+         "For each sampled (layout, schedule, tape) the fault-free run is executed once to learn its n driver calls, then re-executed n times with exactly the k-th call (register, poll, read or send) returning an error, for every k. The loop must return that error and write nothing afterwards. Two further sweeps go below the driver seam in hybrid runs: every send with the OS-level write under the shipped RealDriver/DevInputWriter failing (EAGAIN, EPIPE, EBADF) and every keyboard/tablet read failing (EBADF). Enumeration over fault positions is complete per schedule; schedules are sampled. In the runs whose poll goes through the shipped RealDriver::poll every wait system call fails in turn as well (EBADF, EINVAL, EFAULT). The read(2) calls on the device descriptors are numbered and swept twice: failing from the n-th call on (EIO: the descriptor is dead) and failing at the n-th call only (a transient failure; the device works again afterwards) - in both cases the error must reach the loop's caller, at the latest after the records that were waiting in the device queue before the failing call.", B_NOTE),
 }
 
 NOT_APPLICABLE = {
